@@ -24,10 +24,34 @@ Definition spec (which : Z) (c : case) (tr : list (list out)) : bool :=
   else if which =? 17 then S17c (c_cfg c) st && S17t st
   else true.
 
+(* Per property, model and implementation are compared on the projection of the trace that
+   the property speaks about, so that a divergence elsewhere is attributed elsewhere:
+     C01/C02: the motion sink's starts, stops and written ids;
+     C03: per event, whether a motion recording started / stopped (ids erased);
+     C04: window consultations, gate calls and stops;
+     C12: every call on every sink with ids erased, and panics;
+     C13: everything (bad frames interact with all three sinks and with ids);
+     C17: the continuous and test sinks. *)
+Definition erase_id (x : out) : out :=
+  match x with Call s (Write _) f => Call s (Write 0) f | _ => x end.
+
+Definition proj (which : Z) (o : list out) : list out :=
+  if (which =? 1) || (which =? 2) then
+    filter (fun x => match x with Call SMotion Check _ => false | Call SMotion _ _ => true | _ => false end) o
+  else if which =? 3 then
+    filter (fun x => match x with Call SMotion Start false | Call SMotion Stop _ => true | _ => false end) o
+  else if which =? 4 then
+    filter (fun x => match x with Call SMotion (Write _) _ => false | Call SMotion _ _ | WinQ _ => true | _ => false end) o
+  else if which =? 12 then
+    map erase_id (filter (fun x => match x with Call _ _ _ | Panic => true | _ => false end) o)
+  else if which =? 17 then
+    filter (fun x => match x with Call SConst _ _ | Call STest _ _ => true | _ => false end) o
+  else o.
+
 Definition check_which (which : Z) (c : case) : Z :=
   let m := model_trace c in
   let i := map snd (c_steps c) in
-  code (trace_eqb m i) (spec which c i) (spec which c m).
+  code (trace_eqb (map (proj which) m) (map (proj which) i)) (spec which c i) (spec which c m).
 
 Definition explain (c : case) :=
   let m := model_trace c in
